@@ -67,6 +67,14 @@ def run(ctx, res):
             base = "State::Text" if delim == "delimiter_start" else "State::InDelimiter"
             if not isinstance(nxt, A.Variant) or nxt.name == base or nxt.name == "State::Text":
                 bad.append(A.show(v))
+        # a tag that starts at this character needs a token boundary in front of it: when the partial *start* match is
+        # abandoned and the character re-opens the start delimiter, the outcome must carry Some(token kind)
+        if delim == "delimiter_start":
+            for o in eq_paths:
+                v = o["value"]
+                tk = v.items[0] if isinstance(v, A.Tuple) and len(v.items) == 2 else None
+                if not (isinstance(tk, A.Variant) and tk.name == "Some"):
+                    bad.append("no token boundary is emitted (%s): the tag token would start before its start delimiter" % A.show(v)[:80])
         if bad or not eq_paths:
             res.add(Finding("C08.R1", fn, site, "in state %s a mismatching character that equals the first character of %s still falls back "
                             "to the base state: %s" % (st, delim, bad[:2]), loc=loc))
